@@ -263,11 +263,22 @@ def ob_relay_set(run, oid):
             ct = fm["children"]
             alt = []
             if isinstance(ct, tuple) and ct and ct[0] == "local":
+                filled = tb.inplace_sources(ct[1])
                 for d in tb.defs().get(ct[1], []):
                     t = tb.call_term(d[1], d[3]) if d[0] == "call" else tb.rvalue_term(d[3]["rv"])
+                    if filled and isinstance(t, tuple) and t and t[0] == "call" and t[1].rsplit("::", 1)[-1] in ("new", "with_capacity", "default"):
+                        continue        # `let mut children = Vec::new();` then filled by a loop over the skip/take iterator
                     pv2 = tb.provenance(t)
                     if not (any(x.endswith("Iterator::skip") for x in pv2["calls"]) and any(x.endswith("Iterator::take") for x in pv2["calls"])):
                         alt.append(mir.show(t)[:80])
+                # every element the iterator yields is kept: the filling calls are unconditional inside the loop
+                for c2 in tb.calls():
+                    if c2.name.rsplit("::", 1)[-1] in ("push", "extend", "insert", "push_back") and c2.args:
+                        rt = tb.operand_term(c2.args[0])
+                        if K.mentions(rt, lambda x: x[0] == "local" and x[1] == ct[1]):
+                            ex2 = DET.extra_guards(prog, tb, c2.bb, [])
+                            if ex2:
+                                alt.append("conditional fill: " + ", ".join(G.atoms_show(ex2))[:80])
             sk = [c for c in tb.calls() if c.name.endswith("Iterator::skip")]
             extra = DET.extra_guards(prog, tb, sk[0].bb, []) if sk else ["no skip call"]
             o.check(not alt and not extra, "TurbineTree::new|children|every-position", "the children are computed the same way for every position in the tree (no layer is cut off)", sp,
